@@ -51,4 +51,33 @@ PROPS = {
         "spec_ops": {"spec.c06.hdr": "hdr", "spec.c06.msg3": "msg3"},
         "op_specs": {"hdr": "spec.c06.hdr"},
     },
+    "C16": {
+        "thm": "SameVerif.Thm.C16",
+        "suites": ["events"],
+        "technique": "Lean 4 theorems by kernel evaluation over tables GENERATED from the compiled crate (61 published codes, fallback for all strings, no '%', order/numbers, classes, originators) + exhaustive hash correspondence over all 2^21 ASCII triples and all strings of length 0..4 over a 40-symbol alphabet",
+        "level_text": "Proved in Lean over the phf/strum data dumped from the compiled crate on every run: each of the 61 independently transcribed published codes decodes to its documented phenomenon and significance; for ALL strings the decoder is the three-stage lookup with last-letter fallback and (Unrecognized, Unknown) otherwise; "
+                      "no phenomenon x significance display keeps a '%'; numeric form 0..5 in the stated order; test/national/weather classes consistent; PEP/CIV/WXR/EAS/EC rule and Unknown for every other 3-byte code. "
+                      "The lookup logic model is tied to the public API exhaustively: all 2,097,152 three-character ASCII strings and all 2,625,641 strings of length 0..4 over a 40-symbol alphabet with multi-byte UTF-8, by range hash, in both tiers; individually listed answers are judged by an oracle written from the published table.",
+        "level_note": "Trusts the dump (hook + strum/phf accessors) to report the tables the crate really uses; mitigated because the same tables are exercised exhaustively through EventCode::from.",
+        "rule": "hash ranges: 32 x 65536 ASCII triples, 0..4-letter strings over 40 symbols in ranges of 64000; individual evt/sigfrom/org requests: published codes, two-letter-code + letter, random ASCII, multi-byte. Non-trivial = every request; distinct by text. counters.exhaustive:* give the number of strings inside hash requests.",
+        "exhaustive": True,
+        "exhaustive_note": "the quantifier's two finite domains (2^21 ASCII triples; length 0..4 over the 40-symbol alphabet) are enumerated completely on both sides in both tiers",
+        "assumptions": ["strum EnumString behaviour for Originator (variant name accepted for EnvironmentCanada) is modelled and sampled"],
+        "spec_ops": {"spec.c16.evt": "evt", "spec.c16.org": "org", "spec.c16.sigfrom": "sigfrom"},
+        "op_specs": {"evt": "spec.c16.evt"},
+    },
+    "C15": {
+        "thm": "SameVerif.Thm.C15",
+        "suites": ["time"],
+        "technique": "Lean 4 theorem for ALL years (year inference exact within 179 days, tight at 180; invalid dates rejected; expiry iff) over a closed-form Gregorian calendar + exhaustive hash correspondence through the public API over 1970..2200 x 366 x +-90 days",
+        "level_text": "Proved in Lean for every year in chrono's range, every valid day/time and every receive date within 179 days (so within +-90): the reconstructed issue time is the true instant; the bound is tight at 180; day 0, day > 366, day 366 in a non-leap year, hour >= 24, minute >= 60 are errors; a result always carries the message's own fields; "
+                      "expiry holds iff issue + duration < now to the nanosecond. The closed-form calendar is proved self-consistent (year lengths, monotone). The model is tied to MessageHeader::issue_datetime / is_expired_at / valid_duration(_fields) / issue_daytime_fields exhaustively over all 15,303,246 (issue date 1970..2200, receive offset -90..+90) pairs "
+                      "with boundary times of day and durations, all 10,000 TTTT and 5 x 10,000 HHMM values, by hash, in both tiers; individually listed round trips (also far years, negative years) are judged by an oracle with its own year-counting calendar.",
+        "level_note": "chrono's calendar (from_yo_opt, and_hms_opt, timestamp, DateTime+Duration, ordering) is modelled, validated exhaustively on 1970..2200 and sampled elsewhere; receive ordinals above 2^31 (impossible for a real date) are outside the hook-level domain.",
+        "rule": "231 hash requests (one per issue year, 366 x 181 pairs each), durhash, 5 hhmmhash; individual `issue` requests: true instants x offsets (boundaries +-90, +-179, random) incl. far and negative years; invalid/extreme field products; expiry boundary quadruples (at, +1 ns, -1 ns, +1 s). Non-trivial = every request; distinct by text.",
+        "exhaustive": True,
+        "exhaustive_note": "the property's finite quantifier (issue year 1970..2200 x every day of year x offset -90..+90; all TTTT; all HHMM) is enumerated completely on both sides in both tiers",
+        "assumptions": ["Utc::now() is not involved (callers pass the receive time)"],
+        "spec_ops": {"spec.c15.invalid": "issue"},
+    },
 }
